@@ -52,3 +52,4 @@ BIN(bitAnd, bitAnd) BIN(bitOr, bitOr) BIN(xor, xor_) BIN(leftShift, leftShift) B
 BIN(lessThan, lessThan) BIN(lessThanEq, lessThanEq) BIN(greaterThan, greaterThan) BIN(greaterThanEq, greaterThanEq)
 BIN(equal, equal) BIN(notEqual, notEqual) BIN(and, and_) BIN(or, or_)
 UNA(not, not_) UNA(positive, positive) UNA(negative, negative) UNA(tilde, tilde)
+
